@@ -91,7 +91,13 @@ func (sel *Selection) Split(node Node) *Selection {
 	fork := *sel
 	fork.parent = nil
 	fork.Browser = NewBrowser(meta.RootModule(sel.Path.Meta), node)
+	fork.Browser.DisableConstraints = sel.Browser != nil && sel.Browser.DisableConstraints
+	// no request parameters carry over, but what is written to the new node (UpsertInto, InsertInto,
+	// UpdateInto) still has to be a value of the leaf's type
 	fork.Constraints = &Constraints{}
+	if !fork.Browser.DisableConstraints {
+		fork.Constraints.AddConstraint("field", 100, 0, fieldConstraints{})
+	}
 	fork.Node = node
 	return &fork
 }
